@@ -1,0 +1,317 @@
+//go:build verif
+
+// Contracts for package vm, property C17 (gas accounting of the state transition) and C18 (IntrinsicGas).
+// Comment-only file, read by /verif/govc.
+
+package vm
+
+// ---------------------------------------------------------------- ghost account model of a StateDB
+//
+// (k = ethKey(a) for an Ethereum address a)
+// evmBal(db)[k]   : OLT balance of a as seen through the EVM StateDB db
+// evmNonce(db)[k] : nonce (sequence) of a
+// evmExec(db)[k]  : ghost running total of every balance change applied to a by EVM *execution*
+//                   (value transfers and contract code run by evm.Call / evm.Create); gas purchase and
+//                   gas refund do not count. "Net effect of gas on the sender" = balance delta - exec delta.
+// evmRefund(db)   : the refund counter
+// evmAux(db)      : everything else a StateDB holds (access list, refund counter, code, storage, journal)
+// ethKey(a): the key of address a in the ghost arrays (an uninterpreted function: nothing depends on its injectivity)
+//@ ghost func ethKey(a common.Address) string
+//@ model evmBal(StateDB) array[string]int
+//@ model evmNonce(StateDB) array[string]int
+//@ model evmExec(StateDB) array[string]int
+//@ model evmAux(StateDB) int
+//@ model evmRefund(StateDB) int
+
+// go-ethereum's vm.StateDB: assumed for the implementation (CommitStateDB is verified elsewhere / not at all);
+// the state-transition functions below are PROVED against this interface contract.
+//@ interface github.com/ethereum/go-ethereum/core/vm.StateDB
+//@   method GetBalance
+//@     modifies nothing
+//@     ensures result != nil && big(result) == evmBal(self)[ethKey(arg0)]
+//@   method SubBalance
+//@     requires arg1 != nil
+//@     modifies evmBal(self)[ethKey(arg0)]
+//@     ensures evmBal(self)[ethKey(arg0)] == old(evmBal(self))[ethKey(arg0)] - big(arg1)
+//@   method AddBalance
+//@     requires arg1 != nil
+//@     modifies evmBal(self)[ethKey(arg0)]
+//@     ensures evmBal(self)[ethKey(arg0)] == old(evmBal(self))[ethKey(arg0)] + big(arg1)
+//@   method GetNonce
+//@     modifies nothing
+//@     ensures result == evmNonce(self)[ethKey(arg0)]
+//@   method SetNonce
+//@     modifies evmNonce(self)[ethKey(arg0)]
+//@     ensures evmNonce(self)[ethKey(arg0)] == arg1
+//@   method GetCodeHash
+//@     modifies nothing
+//@   method GetRefund
+//@     modifies nothing
+//@     ensures result == evmRefund(self)
+//@   method PrepareAccessList
+//@     modifies evmAux(self)
+
+// ---------------------------------------------------------------- the message being applied
+//
+// Message getters are pure; what they return is a (model) attribute of the message object.
+//@ model msgFrom(Message) common.Address
+//@ model msgGas(Message) int
+//@ model msgNonce(Message) int
+//@ model msgFake(Message) bool
+//@ model msgIsCreate(Message) bool
+//@ model msgValue(Message) *big.Int
+//@ interface Message
+//@   method From
+//@     modifies nothing
+//@     ensures result == msgFrom(self)
+//@   method To
+//@     modifies nothing
+//@     ensures (result == nil) == msgIsCreate(self)
+//@   method Gas
+//@     modifies nothing
+//@     ensures result == msgGas(self)
+//@   method GasPrice
+//@     modifies nothing
+//@   method Value
+//@     modifies nothing
+//@     ensures result == msgValue(self)
+//@   method Nonce
+//@     modifies nothing
+//@     ensures result == msgNonce(self)
+//@   method IsFake
+//@     modifies nothing
+//@     ensures result == msgFake(self)
+//@   method Data
+//@     modifies nothing
+//@   method AccessList
+//@     modifies nothing
+
+// ---------------------------------------------------------------- go-ethereum dependencies (assumed)
+
+// GasPool is a uint64 counter; SubGas fails without effect when the pool is too small.
+//@ assume func github.com/ethereum/go-ethereum/core.(*GasPool).SubGas
+//@   modifies *self
+//@   ensures err != nil ==> *self == old(*self)
+//@   ensures err == nil ==> *self == old(*self) - arg0 && old(*self) >= arg0
+//@ assume func github.com/ethereum/go-ethereum/core.(*GasPool).AddGas
+//@   requires *self + arg0 <= 18446744073709551615                                // C18.gaspool
+//@   modifies *self
+//@   ensures *self == old(*self) + arg0 && result == self
+
+// ---------------------------------------------------------------- small arithmetic
+
+// package variable `RefundQuotientFrankenstein uint64 = 3` (vm/evm.go) is never assigned anywhere in the repository;
+// the engine reads package variables as immutable but does not know their initialiser.
+//@ axiom RefundQuotientFrankenstein == 3                                   // C18.refund-quotient
+// likewise `SimulationBlockGasLimit uint64 = 100_000_000` (only read: olvm validateEthTx, web3/eth)
+// (an axiom is only in force outside its package in queries that mention one of the package's ghost functions:
+//  vmConst(0) is that handle for package olvm)
+//@ ghost func vmConst(i int) int
+//@ axiom SimulationBlockGasLimit == 100000000 && vmConst(0) == 100000000   // C17.gas-limit
+
+//@ func (*StateTransition).gasUsed
+//@   requires st != nil
+//@   modifies nothing
+//@   ensures result == wrapu64(st.initialGas - st.gas)                     // C17.gas-used
+//@   ensures st.gas <= st.initialGas ==> result == st.initialGas - st.gas   // C17.gas-used
+
+// buyGas: on error nothing changed (neither the StateDB nor the gas pool nor st); on success the sender is debited
+// exactly msg.Gas * gasPrice and st.gas == st.initialGas == msg.Gas.
+//@ func (*StateTransition).buyGas
+//@   safety C18
+//@   requires st != nil && st.msg != nil && st.state != nil && st.gp != nil && st.gasPrice != nil
+//@   requires st.gas == 0                                                                                                     // C17.fresh-transition
+//@   requires st.gp != st.gasPrice                                                                                            // C17.typed-pointers
+//@   modifies st.gas, st.initialGas, *st.gp, evmBal(st.state)[ethKey(msgFrom(st.msg))]
+//@   ensures err != nil ==> evmBal(st.state) == old(evmBal(st.state)) && st.gas == old(st.gas) && st.initialGas == old(st.initialGas) && *st.gp == old(*st.gp)   // C17.precheck-no-effect
+//@   ensures err == nil ==> evmBal(st.state)[ethKey(msgFrom(st.msg))] == old(evmBal(st.state))[ethKey(msgFrom(st.msg))] - msgGas(st.msg) * big(st.gasPrice)                        // C17.buy-gas
+//@   ensures err == nil ==> old(evmBal(st.state))[ethKey(msgFrom(st.msg))] >= msgGas(st.msg) * big(st.gasPrice)                                                          // C17.buy-gas
+//@   ensures err == nil ==> st.gas == msgGas(st.msg) && st.initialGas == msgGas(st.msg)                                                                          // C17.buy-gas
+//@   ensures err == nil ==> *st.gp == old(*st.gp) - msgGas(st.msg) && old(*st.gp) >= msgGas(st.msg)                                                              // C17.gas-pool
+
+// IntrinsicGas: the data part is overflow-free by its own guards (nz <= len(data), the two division guards).
+//@ func IntrinsicGas
+//@   safety C18
+//@   modifies nothing
+//@   ensures err == nil && accessList == nil && !isContractCreation ==> result0 >= 21000 + 4 * len(data) && result0 <= 21000 + 16 * len(data)     // C17.intrinsic-gas
+//@   ensures err == nil && accessList == nil && isContractCreation ==> result0 >= 53000 + 4 * len(data) && result0 <= 53000 + 16 * len(data)      // C17.intrinsic-gas
+//@   ensures err != nil ==> result0 == 0                                                                                                        // C17.intrinsic-gas
+//@   invariant loop1: 0 <= $i && $i <= len(data) && 0 <= nz && nz <= $i                                                                         // C18.intrinsic-gas-nz
+
+// refundGas: the refund never exceeds the gas used, so gas <= initialGas is preserved; the sender is credited exactly
+// (remaining gas after the refund) * gasPrice.
+//@ func (*StateTransition).refundGas
+//@   safety C18
+//@   requires st != nil && st.msg != nil && st.state != nil && st.gp != nil && st.gasPrice != nil
+//@   requires st.gp != st.gasPrice                                                                                            // C17.typed-pointers
+//@   requires refundQuotient > 0                                                                                              // C18.refund-quotient
+//@   requires st.gas <= st.initialGas                                                                                         // C17.gas-le-initial
+//@   requires *st.gp + st.initialGas <= 18446744073709551615                                                                  // C18.gaspool
+//@   modifies st.gas, *st.gp, evmBal(st.state)[ethKey(msgFrom(st.msg))]
+//@   ensures old(st.gas) <= st.gas                                                                                            // C17.gas-le-initial
+//@   ensures st.gas <= st.initialGas                                                                                          // C17.gas-le-initial
+//@   ensures st.initialGas == old(st.initialGas)                                                                              // C17.gas-le-initial
+//@   ensures st.gas - old(st.gas) <= (st.initialGas - old(st.gas)) / refundQuotient                                           // C17.refund-cap
+//@   ensures evmBal(st.state)[ethKey(msgFrom(st.msg))] == old(evmBal(st.state))[ethKey(msgFrom(st.msg))] + st.gas * big(st.gasPrice)          // C17.refund-gas
+//@   ensures *st.gp == old(*st.gp) + st.gas                                                                                   // C17.refund-gas
+
+// preCheck: consensus pre-checks (nonce not too low, sender is an EOA, enough balance and block gas), then buyGas.
+// An error means nothing at all was changed.
+//@ func (*StateTransition).preCheck
+//@   safety C18
+//@   requires st != nil && st.msg != nil && st.state != nil && st.gp != nil && st.gasPrice != nil
+//@   requires st.gas == 0                                                                                                     // C17.fresh-transition
+//@   requires st.gp != st.gasPrice                                                                                            // C17.typed-pointers
+//@   modifies st.gas, st.initialGas, *st.gp, evmBal(st.state)[ethKey(msgFrom(st.msg))]
+//@   ensures err != nil ==> evmBal(st.state) == old(evmBal(st.state)) && st.gas == old(st.gas) && st.initialGas == old(st.initialGas) && *st.gp == old(*st.gp)   // C17.precheck-no-effect
+//@   ensures err == nil ==> evmBal(st.state)[ethKey(msgFrom(st.msg))] == old(evmBal(st.state))[ethKey(msgFrom(st.msg))] - msgGas(st.msg) * big(st.gasPrice)                        // C17.buy-gas
+//@   ensures err == nil ==> old(evmBal(st.state))[ethKey(msgFrom(st.msg))] >= msgGas(st.msg) * big(st.gasPrice)                                                          // C17.buy-gas
+//@   ensures err == nil ==> st.gas == msgGas(st.msg) && st.initialGas == msgGas(st.msg)                                                                          // C17.buy-gas
+//@   ensures err == nil ==> *st.gp == old(*st.gp) - msgGas(st.msg) && old(*st.gp) >= msgGas(st.msg)                                                              // C17.gas-pool
+//@   ensures err == nil && !msgFake(st.msg) ==> evmNonce(st.state)[ethKey(msgFrom(st.msg))] <= msgNonce(st.msg)                                                          // C17.nonce-not-low
+//@   claims err == nil && !msgFake(st.msg) ==> evmNonce(st.state)[ethKey(msgFrom(st.msg))] == msgNonce(st.msg)                                                           // C17.nonce-exact
+
+// ---------------------------------------------------------------- the EVM itself (go-ethereum, assumed)
+//
+// What is assumed about evm.Call / evm.Create (core/vm/evm.go of go-ethereum v1.10.8):
+//  * they return at most the gas they were given (leftOverGas <= gas);
+//  * every balance change they make is an *execution* change (recorded in evmExec);
+//  * on error the state is reverted to the snapshot taken at entry: no balance moved;
+//  * Call never touches the nonce of its caller (the caller of the top-level call is an EOA);
+//  * Create bumps the caller's nonce by one before the snapshot (kept even when the creation fails), unless it
+//    exits early with ErrDepth / ErrInsufficientBalance (err != nil, nothing changed).
+//@ assume func github.com/ethereum/go-ethereum/core/vm.(*EVM).Call
+//@   modifies evmBal(self.StateDB), evmNonce(self.StateDB), evmExec(self.StateDB), evmRefund(self.StateDB), evmAux(self.StateDB)
+//@   ensures leftOverGas <= gas
+//@   ensures forall k string :: evmBal(self.StateDB)[k] - old(evmBal(self.StateDB))[k] == evmExec(self.StateDB)[k] - old(evmExec(self.StateDB))[k]
+//@   ensures err != nil ==> evmBal(self.StateDB) == old(evmBal(self.StateDB)) && evmExec(self.StateDB) == old(evmExec(self.StateDB))
+//@   ensures evmNonce(self.StateDB)[ethKey(unbox(caller, "vm.AccountRef"))] == old(evmNonce(self.StateDB))[ethKey(unbox(caller, "vm.AccountRef"))]
+//@ assume func github.com/ethereum/go-ethereum/core/vm.(*EVM).Create
+//@   modifies evmBal(self.StateDB), evmNonce(self.StateDB), evmExec(self.StateDB), evmRefund(self.StateDB), evmAux(self.StateDB)
+//@   ensures leftOverGas <= gas
+//@   ensures forall k string :: evmBal(self.StateDB)[k] - old(evmBal(self.StateDB))[k] == evmExec(self.StateDB)[k] - old(evmExec(self.StateDB))[k]
+//@   ensures err != nil ==> evmBal(self.StateDB) == old(evmBal(self.StateDB)) && evmExec(self.StateDB) == old(evmExec(self.StateDB))
+//@   ensures evmNonce(self.StateDB)[ethKey(unbox(caller, "vm.AccountRef"))] == wrapu64(old(evmNonce(self.StateDB))[ethKey(unbox(caller, "vm.AccountRef"))] + 1) || (err != nil && evmNonce(self.StateDB)[ethKey(unbox(caller, "vm.AccountRef"))] == old(evmNonce(self.StateDB))[ethKey(unbox(caller, "vm.AccountRef"))])
+//@ assume func github.com/ethereum/go-ethereum/core/vm.(*EVM).ChainConfig
+//@   modifies nothing
+//@ assume func github.com/ethereum/go-ethereum/params.(*ChainConfig).Rules
+//@   modifies nothing
+//@ assume func github.com/ethereum/go-ethereum/core/vm.ActivePrecompiles
+//@   modifies nothing
+//@ assume func github.com/ethereum/go-ethereum/core/types.(AccessList).StorageKeys
+//@   modifies nothing
+
+// ---------------------------------------------------------------- TransitionDb
+//
+// The dynamic call st.evm.Context.CanTransfer (a func-typed field, = ethcore.CanTransfer) is assumed pure.
+//@ func (*StateTransition).TransitionDb
+//@   dyncalls pure
+//@   safety C18
+//@   requires st != nil && st.msg != nil && st.state != nil && st.gp != nil && st.gasPrice != nil && st.evm != nil && st.value != nil && msgValue(st.msg) != nil
+//@   requires st.evm.StateDB == st.state                                                                                      // C17.one-statedb
+//@   requires st.gas == 0                                                                                                     // C17.fresh-transition
+//@   requires st.gp != st.gasPrice                                                                                            // C17.typed-pointers
+//@   requires *st.gp <= 18446744073709551615                                                                                  // C17.typed-pointers
+//@   modifies st.gas, st.initialGas, *st.gp, evmBal(st.state), evmNonce(st.state), evmExec(st.state), evmRefund(st.state), evmAux(st.state)
+//@   ensures err != nil ==> result0 == nil                                                                                    // C17.consensus-error
+//@   claims err != nil ==> evmBal(st.state) == old(evmBal(st.state))                                                          // C17.failed-precheck-no-effect
+//@   ensures err != nil ==> evmNonce(st.state) == old(evmNonce(st.state)) && evmExec(st.state) == old(evmExec(st.state))      // C17.failed-precheck-no-effect
+//@   ensures err != nil ==> evmBal(st.state)[ethKey(msgFrom(st.msg))] == old(evmBal(st.state))[ethKey(msgFrom(st.msg))] || evmBal(st.state)[ethKey(msgFrom(st.msg))] == old(evmBal(st.state))[ethKey(msgFrom(st.msg))] - msgGas(st.msg) * big(st.gasPrice)   // C17.failed-precheck-no-effect
+//@   ensures err != nil ==> forall k string :: k != ethKey(msgFrom(st.msg)) ==> evmBal(st.state)[k] == old(evmBal(st.state))[k]   // C17.failed-precheck-no-effect
+//@   ensures err == nil ==> result0 != nil && fresh(result0)                                                                  // C17.gas-charge
+//@   ensures err == nil ==> st.gas <= st.initialGas && st.initialGas == msgGas(st.msg) && result0.UsedGas == st.initialGas - st.gas   // C17.gas-le-initial
+//@   ensures err == nil ==> evmBal(st.state)[ethKey(msgFrom(st.msg))] == old(evmBal(st.state))[ethKey(msgFrom(st.msg))] - result0.UsedGas * big(st.gasPrice) + (evmExec(st.state)[ethKey(msgFrom(st.msg))] - old(evmExec(st.state))[ethKey(msgFrom(st.msg))])   // C17.gas-charge
+//@   ensures err == nil ==> forall k string :: k != ethKey(msgFrom(st.msg)) ==> evmBal(st.state)[k] - old(evmBal(st.state))[k] == evmExec(st.state)[k] - old(evmExec(st.state))[k]   // C17.gas-charge
+//@   ensures err == nil && result0.Err != nil ==> evmExec(st.state) == old(evmExec(st.state))                                 // C17.reverted-moves-nothing
+//@   ensures err == nil && !msgIsCreate(st.msg) ==> evmNonce(st.state)[ethKey(msgFrom(st.msg))] == wrapu64(old(evmNonce(st.state))[ethKey(msgFrom(st.msg))] + 1)   // C17.nonce-plus-one
+//@   ensures err == nil && msgIsCreate(st.msg) && result0.Err == nil ==> evmNonce(st.state)[ethKey(msgFrom(st.msg))] == wrapu64(old(evmNonce(st.state))[ethKey(msgFrom(st.msg))] + 1)   // C17.nonce-plus-one
+//@   ensures err == nil ==> *st.gp == old(*st.gp) - result0.UsedGas                                                          // C17.gas-pool
+
+// ---------------------------------------------------------------- EVMTransaction: the one Message implementation
+//
+// common.BytesToAddress / Address.Bytes are functions of their argument (T-PURE made functional):
+//@ ghost func ethAddrOf(b bytes) common.Address
+//@ ghost func ethAddrBytes(a common.Address) bytes
+//@ assume func github.com/ethereum/go-ethereum/common.BytesToAddress
+//@   modifies nothing
+//@   ensures result == ethAddrOf(b)
+//@ assume func github.com/ethereum/go-ethereum/common.(Address).Bytes
+//@   modifies nothing
+//@   ensures result == ethAddrBytes(self)
+
+//@ repr msgFrom(self *EVMTransaction) = ethAddrOf(self.from)
+//@ repr msgGas(self *EVMTransaction) = self.gas
+//@ repr msgNonce(self *EVMTransaction) = self.nonce
+//@ repr msgFake(self *EVMTransaction) = self.isSimulation
+//@ repr msgIsCreate(self *EVMTransaction) = self.to == nil
+//@ repr msgValue(self *EVMTransaction) = self.value
+
+//@ func (*EVMTransaction).From
+//@   implements Message
+//@   modifies nothing
+//@ func (*EVMTransaction).To
+//@   implements Message
+//@   modifies nothing
+//@ func (*EVMTransaction).Gas
+//@   implements Message
+//@   modifies nothing
+//@ func (*EVMTransaction).GasPrice
+//@   implements Message
+//@   modifies nothing
+//@   ensures result == etx.gasPrice
+//@ func (*EVMTransaction).Value
+//@   implements Message
+//@   modifies nothing
+//@ func (*EVMTransaction).Nonce
+//@   implements Message
+//@   modifies nothing
+//@ func (*EVMTransaction).IsFake
+//@   implements Message
+//@   modifies nothing
+//@ func (*EVMTransaction).Data
+//@   implements Message
+//@   modifies nothing
+//@   ensures result == etx.data
+//@ func (*EVMTransaction).AccessList
+//@   implements Message
+//@   modifies nothing
+
+// ---------------------------------------------------------------- Apply = NewEVM + ApplyMessage (TransitionDb) + Finalise
+//
+// NewEVM: assumed. It only assembles go-ethereum configuration objects (block context with the two func-typed fields
+// CanTransfer/Transfer = ethcore.CanTransfer/Transfer, chain config via hash/fnv, ethvm.NewEVM): the returned EVM runs
+// on etx.stateDB and is at call depth 0.
+//@ assume func (*EVMTransaction).NewEVM
+//@   modifies nothing
+//@   ensures result != nil && fresh(result) && result.StateDB == iface(etx.stateDB) && result.depth == 0
+
+// Finalise (vm/statedb.go, CommitStateDB is not verified here): writes the dirty state objects through the account keeper
+// and empties the per-transaction object cache. It does not change what the EVM view *is*: balances, nonces and the
+// execution ledger of the ghost account model are the same before and after; what it touches are the CommitStateDB
+// fields and, through the keeper, the native stores (abstracted by their ledger / State models).
+// finalN(s): ghost counter of Finalise calls on s (C06: every non-simulated Apply ends with exactly one Finalise, which
+// empties the per-transaction object cache, whether the message was applied or failed).
+//@ model finalN(*CommitStateDB) int
+//@ assume func (*CommitStateDB).Finalise
+//@   modifies *s, evmAux(s), evmRefund(s), finalN(s), allmodel(bal), allmodel(balTotal), allmodel(vHas), allmodel(vVal)
+//@   ensures finalN(s) == old(finalN(s)) + 1
+
+// Apply: the contract of TransitionDb carried to the transaction object (msg = etx, state = etx.stateDB, gas pool =
+// etx.gaspool); for a non-simulated transaction Finalise follows in every case, error or not.
+//@ func (*EVMTransaction).Apply
+//@   dyncalls pure
+//@   safety C18
+//@   requires etx != nil && etx.stateDB != nil && etx.gaspool != nil && etx.gasPrice != nil && etx.value != nil && etx.header != nil
+//@   requires etx.gaspool != etx.gasPrice                                                                                     // C17.typed-pointers
+//@   requires *etx.gaspool <= 18446744073709551615                                                                            // C17.typed-pointers
+//@   modifies *etx.gaspool, evmBal(etx.stateDB), evmNonce(etx.stateDB), evmExec(etx.stateDB), evmRefund(etx.stateDB), evmAux(etx.stateDB), finalN(etx.stateDB), *etx.stateDB, allmodel(bal), allmodel(balTotal), allmodel(vHas), allmodel(vVal)
+//@   ensures !old(etx.isSimulation) ==> finalN(etx.stateDB) == old(finalN(etx.stateDB)) + 1                                   // C06.evm-finalised
+//@   ensures old(etx.isSimulation) ==> finalN(etx.stateDB) == old(finalN(etx.stateDB))                                        // C06.evm-finalised
+//@   ensures err != nil ==> result0 == nil                                                                                    // C17.consensus-error
+//@   claims err != nil ==> evmBal(etx.stateDB) == old(evmBal(etx.stateDB))                                                    // C17.failed-precheck-no-effect
+//@   ensures err == nil ==> result0 != nil && fresh(result0) && result0.UsedGas <= etx.gas                                    // C17.gas-charge
+//@   ensures err == nil ==> evmBal(etx.stateDB)[ethKey(ethAddrOf(etx.from))] == old(evmBal(etx.stateDB))[ethKey(ethAddrOf(etx.from))] - result0.UsedGas * big(etx.gasPrice) + (evmExec(etx.stateDB)[ethKey(ethAddrOf(etx.from))] - old(evmExec(etx.stateDB))[ethKey(ethAddrOf(etx.from))])   // C17.gas-charge
+//@   ensures err == nil ==> forall k string :: k != ethKey(ethAddrOf(etx.from)) ==> evmBal(etx.stateDB)[k] - old(evmBal(etx.stateDB))[k] == evmExec(etx.stateDB)[k] - old(evmExec(etx.stateDB))[k]   // C17.gas-charge
+//@   ensures err == nil && result0.Err != nil ==> evmExec(etx.stateDB) == old(evmExec(etx.stateDB))                           // C17.reverted-moves-nothing
+//@   ensures err == nil && etx.to != nil ==> evmNonce(etx.stateDB)[ethKey(ethAddrOf(etx.from))] == wrapu64(old(evmNonce(etx.stateDB))[ethKey(ethAddrOf(etx.from))] + 1)   // C17.nonce-plus-one
+//@   ensures err == nil && etx.to == nil && result0.Err == nil ==> evmNonce(etx.stateDB)[ethKey(ethAddrOf(etx.from))] == wrapu64(old(evmNonce(etx.stateDB))[ethKey(ethAddrOf(etx.from))] + 1)   // C17.nonce-plus-one
